@@ -189,4 +189,85 @@ theorem pco_contents_in_input (data : Bytes) (out : List PcoUnit) (h : unmarshal
 /-- non-vacuity -/
 example : unmarshal [0x80, 0x00, 0x0d, 0x04, 8, 8, 8, 8, 0x00, 0x0a, 0x00] = .ok [⟨13, 4, [8, 8, 8, 8]⟩, ⟨10, 0, []⟩] := by decide
 
+/-! ## lists built with the `Add…` builders -/
+
+theorem ipTo4_len {ip a : Bytes} (h : ipTo4 ip = some a) : a.length = 4 := by
+  unfold ipTo4 at h
+  split at h
+  · next h4 => cases h; exact h4
+  · split at h
+    · next h16 => cases h; simp [List.length_drop, h16.1]
+    · cases h
+
+theorem ipTo16_len {ip a : Bytes} (h : ipTo16 ip = some a) : a.length = 16 := by
+  unfold ipTo16 at h
+  split at h
+  · next h4 => cases h; simp [h4]
+  · split at h
+    · next h16 => cases h; exact h16
+    · cases h
+
+/-- every builder appends a unit whose declared length is the length of its contents -/
+theorem buildUnit_ok (b : Build) (u : PcoUnit) (h : buildUnit b = some u) : UnitOK u := by
+  cases b with
+  | dns4Req => cases h; exact ⟨by simp, by simp, rfl⟩
+  | dns6Req => cases h; exact ⟨by simp, by simp, rfl⟩
+  | ipAllocNas => cases h; exact ⟨by simp, by simp, rfl⟩
+  | dns4 ip =>
+    simp only [buildUnit, Option.map_eq_some_iff] at h
+    obtain ⟨a, ha, rfl⟩ := h
+    exact ⟨by simp, by simp, (ipTo4_len ha).symm⟩
+  | pcscf4 ip =>
+    simp only [buildUnit, Option.map_eq_some_iff] at h
+    obtain ⟨a, ha, rfl⟩ := h
+    exact ⟨by simp, by simp, (ipTo4_len ha).symm⟩
+  | dns6 ip =>
+    simp only [buildUnit] at h
+    split at h
+    · simp only [Option.map_eq_some_iff] at h
+      obtain ⟨a, ha, rfl⟩ := h
+      exact ⟨by simp, by simp, (ipTo16_len ha).symm⟩
+    · cases h
+  | mtu4 m => cases h; exact ⟨by simp, by simp, rfl⟩
+
+theorem build_ok (bs : List Build) : ∀ u ∈ (build bs).1, UnitOK u := by
+  induction bs with
+  | nil => simp [build]
+  | cons b r ih =>
+    intro u hu
+    unfold build at hu
+    cases hb : buildUnit b with
+    | none => simp only [hb] at hu; exact ih u hu
+    | some x =>
+      simp only [hb] at hu
+      rcases List.mem_cons.mp hu with rfl | h
+      · exact buildUnit_ok b _ hb
+      · exact ih u h
+
+/-- **a list built with the `Add…` builders round-trips**: serialising it and parsing the octets back yields the same
+identifiers, lengths and contents in the same order (configuration-protocol octet 0x80 first) -/
+theorem built_roundtrip (bs : List Build) : unmarshal (marshal (build bs).1) = .ok (build bs).1 :=
+  pco_roundtrip _ (build_ok bs)
+
+/-- what the address builders store: an IPv4 address (given in 4 or in IPv4-mapped 16 octets) as its four octets, an IPv6
+address as its sixteen octets; anything else is an error and appends nothing; the MTU as two octets, most significant first -/
+theorem builders_spec (a b c d : UInt8) :
+    buildUnit (.dns4 [a, b, c, d]) = some ⟨13, 4, [a, b, c, d]⟩ ∧
+    buildUnit (.dns4 ([0, 0, 0, 0, 0, 0, 0, 0, 0, 0, 0xff, 0xff, a, b, c, d])) = some ⟨13, 4, [a, b, c, d]⟩ ∧
+    buildUnit (.pcscf4 [a, b, c, d]) = some ⟨12, 4, [a, b, c, d]⟩ ∧
+    buildUnit (.dns6 [a, b, c, d]) = none ∧
+    (∀ m, m < 65536 → buildUnit (.mtu4 m) = some ⟨16, 2, [UInt8.ofNat (m / 256), UInt8.ofNat m]⟩) := by
+  refine ⟨rfl, ?_, rfl, rfl, fun _ _ => rfl⟩
+  simp [buildUnit, ipTo4]
+
+theorem dns6_spec (ip : Bytes) (h : ip.length = 16) : buildUnit (.dns6 ip) = some ⟨3, 16, ip⟩ := by
+  simp [buildUnit, ipTo16, h]
+
+theorem dns4_rejects (ip : Bytes) (h4 : ip.length ≠ 4) (h16 : ip.length ≠ 16) : buildUnit (.dns4 ip) = none := by
+  simp [buildUnit, ipTo4, h4, h16]
+
+example : (build [.dns4Req, .dns4 [8, 8, 8, 8], .dns6 [1, 2], .mtu4 1500]).1 =
+    [⟨13, 0, []⟩, ⟨13, 4, [8, 8, 8, 8]⟩, ⟨16, 2, [5, 220]⟩] := by decide
+example : marshal (build [.dns4 [8, 8, 8, 8], .mtu4 1500]).1 = [0x80, 0, 13, 4, 8, 8, 8, 8, 0, 16, 2, 5, 220] := by decide
+
 end NasVerif.Props.C16
